@@ -278,6 +278,7 @@ func run(c *lib.Ctx) {
 	}
 	downness(c, bks, rng)
 	retryAccounting(c, bks)
+	cancelNotFailure(c, bks)
 	socketBurst(c, bks)
 	c.Count("hook_points_hit", atomic.LoadInt64(&hookHits))
 	c.Floor("quiescent_checks", 100)
@@ -683,6 +684,76 @@ func downness(c *lib.Ctx, bks []*backend, rng *lib.Rng) {
 			c.Count("recovery_checks", 1)
 		}
 		c.Nontrivial(fmt.Sprintf("downness/%d/%d", mf, r))
+		u.up.Stop()
+	}
+}
+
+// cancelNotFailure: requests that the client gives up on while the backend is
+// (healthily) working on them are not failures of that backend. The requests
+// carry no body and are parked in the backend when they are cancelled, so the
+// only thing that ends them is the client's cancellation.
+func cancelNotFailure(c *lib.Ctx, bks []*backend) {
+	atomic.StoreInt32(&delayOn, 0)
+	rounds := c.Pick(12, 100)
+	for r := 0; r < rounds; r++ {
+		gate := make(chan struct{})
+		for _, b := range bks {
+			b.gate.Store(gate)
+		}
+		st := setting{Hosts: 1 + r%2, Policy: "first", MaxConns: 0, MaxFails: 2, FailTimeout: "5s", TryDuration: "0", N: 3}
+		c.Journal("C14 cancel-not-failure %s", lib.JSON(st))
+		u, err := mk(st, bks)
+		if err != nil {
+			c.Violation("harness/upstream", err.Error(), st)
+			return
+		}
+		var returned int64
+		var cancels []context.CancelFunc
+		e0 := atomic.LoadInt64(&bks[0].entered)
+		for i := 0; i < st.N; i++ {
+			ctx, cancel := context.WithCancel(context.Background())
+			cancels = append(cancels, cancel)
+			go func(i int) {
+				defer atomic.AddInt64(&returned, 1)
+				req := httptest.NewRequest("GET", "/cancel", nil).WithContext(ctx)
+				req.Header.Set("X-Mode", "ok")
+				req.Header.Set("X-Rid", fmt.Sprintf("cn%d-%d", r, i))
+				u.p.ServeHTTP(httptest.NewRecorder(), req)
+			}(i)
+		}
+		parked := waitUntil(func() bool { return atomic.LoadInt64(&bks[0].entered)-e0 == int64(st.N) }, 20*time.Second)
+		for _, cf := range cancels {
+			cf()
+		}
+		done := waitUntil(func() bool { return atomic.LoadInt64(&returned) == int64(st.N) }, 20*time.Second)
+		c.Eval(1)
+		if !parked || !done {
+			c.Inconclusive(fmt.Sprintf("cancel-not-failure round %d: requests did not park / return", r))
+			close(gate)
+			u.up.Stop()
+			continue
+		}
+		close(gate)
+		c.Count("cancel_not_failure_rounds", 1)
+		c.Nontrivial(fmt.Sprintf("cancel-not-failure/%d", r))
+		if f := fails(u.hosts[0]); f != 0 {
+			c.Violation("C14/client-cancel-counted-as-failure", fmt.Sprintf("%d requests were given up by their clients while backend 0 was working on them; the backend did nothing wrong, yet its fail count is %d (max_fails %d)", st.N, f, st.MaxFails),
+				map[string]interface{}{"setting": st, "fails": f})
+		} else {
+			// and the next request is forwarded to it
+			req := httptest.NewRequest("GET", "/after", nil)
+			req.Header.Set("X-Mode", "ok")
+			req.Header.Set("X-Rid", fmt.Sprintf("cn%d-after", r))
+			rec := httptest.NewRecorder()
+			code, _ := u.p.ServeHTTP(rec, req)
+			if code == 0 {
+				code = rec.Code
+			}
+			if code != 200 || rec.Header().Get("X-Backend") != "0" {
+				c.Violation("C14/down-with-fewer-than-max_fails", fmt.Sprintf("after %d client cancellations and no failure, the next request was answered %d by backend %q instead of being forwarded to backend 0", st.N, code, rec.Header().Get("X-Backend")), map[string]interface{}{"setting": st})
+			}
+		}
+		waitUntil(func() bool { return conns(u.hosts[0]) == 0 }, 5*time.Second)
 		u.up.Stop()
 	}
 }
